@@ -6,6 +6,11 @@ Independent specification of C16, written from the property text and the decorat
 
 It does not mention wrapper generators, `next`, `throw`, contextlib or PEP 479: a `with` over a generator in the documented
 form (`<setup>; yield <value>; <cleanup>`, one yield) is a try/finally.
+
+`<cleanup>` is ALL the code after the generator's yield, run as ordinary code (`UserGen.after`: nothing is pending when it starts):
+a generator may wrap its yield in try / with blocks of its own and have further statements behind them — the rest of the try
+body, the else and finally clauses and the trailing statements all run, exactly once, after the block; its `except` clauses
+are its own business (they see what its own cleanup statements raise) and never the exception of the with-block.
 -/
 namespace PedVerif.CtxMgr
 open PedVerif.Gen.CtxMgr
@@ -15,7 +20,7 @@ open PedVerif.Gen.CtxMgr
 def UserGen.docForm (m : Mode) (g : UserGen) : Bool :=
   g.yields == 1
   && (match g.setupExc with | some e => !converted m e.kind | none => true)
-  && (match g.cleanupExc with | some e => !converted m e.kind | none => true)
+  && (match g.after.2 with | some e => !converted m e.kind | none => true)
 
 def Prog.docForm (m : Mode) : Prog → Bool
   | .body _ _ => true
@@ -33,8 +38,8 @@ def spec : Prog → List Ev × Final
     match g.setupExc with
     | some e => ([.setup g.tag args], .raised e)                     -- a failing setup propagates, no cleanup
     | none =>
-      ([.setup g.tag args, .bind g.tag g.value] ++ (spec inner).1 ++ [.cleanup g.tag],
-       match g.cleanupExc with
+      ([.setup g.tag args, .bind g.tag g.value] ++ (spec inner).1 ++ g.after.1,
+       match g.after.2 with
        | some c => .raised c                                         -- the cleanup's exception wins
        | none => (spec inner).2)                                     -- otherwise whatever the block did, unchanged
 
@@ -50,7 +55,7 @@ def Prog.quirkFree (m : Mode) : Prog → Bool
   | .seq p q => p.quirkFree m && q.quirkFree m
   | .withCm g _ inner =>
     inner.quirkFree m &&
-    (match g.setupExc, g.cleanupExc, (spec inner).2 with
+    (match g.setupExc, g.after.2, (spec inner).2 with
      | none, some c, .raised e => !quirk m c e
      | _, _, _ => true)
 
@@ -93,7 +98,7 @@ def specOp (entered : List (UserGen × Bool)) : Op → List Ev × OpOut × List 
   | .exit i fin =>
     match entered[i]? with
     | some (g, true) =>
-      ([.cleanup g.tag], .exited (match g.cleanupExc with | some c => .raised c | none => fin), entered.set i (g, false))
+      (g.after.1, .exited (match g.after.2 with | some c => .raised c | none => fin), entered.set i (g, false))
     | _ => ([], .ignored, entered)
 
 def specOps : List (UserGen × Bool) → List Op → List (List Ev × OpOut)
@@ -109,7 +114,7 @@ def histOk (m : Mode) : List (UserGen × Bool) → List Op → Bool
      | .enter g args => g.docForm m && args.fits
      | .exit i fin =>
        match en[i]?, fin with
-       | some (g, true), .raised e => (match g.cleanupExc with | some c => !quirk m c e | none => true)
+       | some (g, true), .raised e => (match g.after.2 with | some c => !quirk m c e | none => true)
        | _, _ => true)
     && histOk m (specOp en op).2.2 rest
 
